@@ -23,9 +23,11 @@ import (
 	"context"
 	"time"
 
+	"entgo.io/ent/dialect/sql"
 	"github.com/google/uuid"
 
 	"go.6river.tech/mmmbbb/ent"
+	"go.6river.tech/mmmbbb/ent/subscription"
 	"go.6river.tech/mmmbbb/ent/topic"
 	"go.6river.tech/mmmbbb/logging"
 )
@@ -56,6 +58,17 @@ func (a *PruneDeletedTopics) Execute(ctx context.Context, tx *ent.Tx) error {
 			// we rely on subscriptions being pruned to then allow topics to be pruned
 			// UPSTREAM: ticket for HasRelationWith efficiency
 			topic.Not(topic.HasSubscriptions()),
+			// likewise for subscriptions that still name this topic in their
+			// dead-letter policy: removing the row would silently clear that policy
+			// (the foreign key is ON DELETE SET NULL) and so change how the
+			// subscription treats deliveries that have used up their attempts
+			func(s *sql.Selector) {
+				t := sql.Table(subscription.Table)
+				s.Where(sql.NotExists(
+					sql.Select(t.C(subscription.FieldID)).From(t).
+						Where(sql.ColumnsEQ(t.C(subscription.FieldDeadLetterTopicID), s.C(topic.FieldID))),
+				))
+			},
 		).
 		Limit(a.params.MaxDelete).
 		All(ctx)
